@@ -486,7 +486,12 @@ func (d *Doc) FactsMode(fi int, afterChecker bool) facts {
 			fa["includeprefix:"+prefixOf(p)] = p
 		}
 	}
+	nsSeen := map[string]bool{}
 	for _, ns := range f.NS {
+		if nsSeen[ns.Lang] {
+			continue // a language stated twice: the first statement counts (it is the one the backends use)
+		}
+		nsSeen[ns.Lang] = true
 		fa["namespace:"+ns.Lang+"="+ns.Name] = "1"
 	}
 	fa["typedefs.n"] = strconv.Itoa(len(f.Typedefs))
